@@ -26,7 +26,9 @@ BOUND = {"quick": "26 configurations (4 layouts x 6 tree kinds x force) with eve
 CHUNK = 1
 CASE_TIMEOUT_S = 900
 
-LAYOUTS = {"embedded": ("cli", None), "sibling": ("cli", "core"), "nested": ("pk.cli", "pk.core"), "deep": ("acme.clients.petstore", None)}
+LAYOUTS = {"embedded": ("cli", None), "sibling": ("cli", "core"), "nested": ("pk.cli", "pk.core"), "deep": ("acme.clients.petstore", None),
+           # <root>/pkgs is a symlink to <root>/vendor/pkgs (a directory INSIDE the project): writes may go through it, not next to its target
+           "symlinked": ("pkgs.petstore", None)}
 TREES = ["absent", "equal", "different", "partial", "nocore", "namespace"]
 
 # ----------------------------------------------------------------------------------------------
@@ -116,7 +118,7 @@ def cases(tier, seed):
                         continue  # quick: forced runs over absent/equal/nocore trees, non-forced runs over every existing tree
                     if tree == "namespace" and (force or "." not in LAYOUTS[lay][0]):
                         continue  # ancestors without __init__.py exist only for dotted packages; the interesting run is the non-force one
-                    if lay == "deep" and tier == "quick" and tree not in ("equal", "namespace", "absent"):
+                    if lay in ("deep", "symlinked") and tier == "quick" and tree not in ("equal", "namespace", "absent"):
                         continue
                     out.append({"doc": dn, "layout": lay, "tree": tree, "force": force, "history": False})
     # post-processing switched on (the default of the CLI): the formatter runs in a subprocess, so its writes are judged by the tree
@@ -159,6 +161,11 @@ def prepare(base, case):
     out_pkg, core_pkg = LAYOUTS[case["layout"]]
     root = os.path.join(base, "proj")
     os.makedirs(root)
+    if case["layout"] == "symlinked":
+        os.makedirs(os.path.join(root, "vendor", "pkgs"))
+        os.symlink(os.path.join("vendor", "pkgs"), os.path.join(root, "pkgs"))
+        with open(os.path.join(root, "vendor", "handwritten.py"), "w") as f:
+            f.write("V = 1\n")
     doc = docs.get(case["doc"])
     other = docs.get("unions" if case["doc"] != "unions" else "petstore")
     npp = not case.get("postprocess")
@@ -194,18 +201,34 @@ def prepare(base, case):
     return root
 
 
+_ROOT = [None]
+
+
+def _real(root, d):
+    """project-relative path of directory d after resolving symlinks (d itself when nothing is linked)"""
+    if not root:
+        return d
+    try:
+        return os.path.relpath(os.path.realpath(os.path.join(root, d)), os.path.realpath(root)).replace(os.sep, "/")
+    except Exception:
+        return d
+
+
 def allowed(rel, out_pkg, core_pkg):
     rel = rel.rstrip("/").replace(os.sep, "/")
     o = out_pkg.replace(".", "/")
     c = (core_pkg or out_pkg + ".core").replace(".", "/")
-    for d in (o, c):
-        if rel == d or rel.startswith(d + "/"):
-            return True
+    root = _ROOT[0]
+    for d0 in (o, c):
+        for d in {d0, _real(root, d0)}:
+            if rel == d or rel.startswith(d + "/"):
+                return True
     anc = set()
     for d in (o, c):
         parts = d.split("/")
         for i in range(1, len(parts)):
             anc.add("/".join(parts[:i]))
+            anc.add(_real(root, "/".join(parts[:i])))
     if rel in anc:
         return True  # the ancestor package directory itself may be created
     if rel.endswith("/__init__.py") and rel[: -len("/__init__.py")] in anc:
@@ -275,6 +298,7 @@ def run_once(base, case, fault, prepared_copy):
     shutil.copytree(prepared_copy, work, symlinks=True)
     # copytree does not preserve directory mtimes reliably across copies; snapshot is taken on the copy
     root = os.path.join(work, "proj")
+    _ROOT[0] = root
     before = sandbox.snapshot(root)
     doc = docs.get(case["doc"])
     undo = None
